@@ -25,7 +25,7 @@ Proof.
   - now rewrite firstn_app_le.
 Qed.
 
-Lemma pres_A1 s s' : inv1 s -> Overlap s' -> step s s' ->
+Lemma pres_A1 s s' : inv1 s -> NoClash s s' -> step s s' ->
   forall j t k, In (j, t, k) (acks s') -> t <= cur (nodes s' j) /\ k <= length (tlogs s' t).
 Proof.
   intros I O H. pose proof (step_hist_le s s' I O H) as HL.
@@ -85,7 +85,7 @@ Proof.
   apply prefix_firstn_le. exact Hk.
 Qed.
 
-Lemma pres_AN s s' : inv1 s -> Overlap s' -> step s s' ->
+Lemma pres_AN s s' : inv1 s -> NoClash s s' -> step s s' ->
   forall j t k' k, In (j, t, k') (acks s') -> k <= k' ->
     AN_at (log (nodes s' j)) (cur (nodes s' j)) s' t k.
 Proof.
@@ -211,7 +211,7 @@ Proof. apply in_dec. decide equality; try apply Nat.eq_dec. decide equality; app
 Lemma endst_not_term0 s k : inv1 s -> ~ endst (firstn k (tlogs s 0)) 0.
 Proof. intros I. rewrite (no_term0 s I). rewrite firstn_nil. apply endst_nil. Qed.
 
-Lemma pres_CV s s' : inv1 s -> Overlap s' -> step s s' ->
+Lemma pres_CV s s' : inv1 s -> NoClash s s' -> step s s' ->
   forall j u c cl t k' k,
       In (j, u, c) (grants s') -> In (u, c, cl) (camps s') -> In (j, t, k') (acks s') -> k <= k' -> t < u ->
       endst (firstn k (tlogs s' t)) t -> CVc s' j u cl t k.
